@@ -132,6 +132,15 @@ pub fn check_by_distance(what: &str, nodes: &[&Enr], distances: &[u64], local_id
     None
 }
 
+/// What the handler hands to the service for a request message: `Message::decode` of the bytes on the wire
+/// (`None`: the decoder refuses the message, the handler drops it).
+fn wire_request(r: &Request) -> Option<Request> {
+    match Message::decode(&Message::Request(r.clone()).encode()) {
+        Ok(Message::Request(d)) => Some(d),
+        _ => None,
+    }
+}
+
 fn gen_req_id(rng: &mut Rng) -> Vec<u8> {
     match rng.below(6) {
         0 => vec![],
@@ -291,11 +300,25 @@ pub fn run_case(idents: &[Ident], idx: u64, rng: &mut Rng, _thorough: bool, hist
                 // same cap; like the answer, the call puts the due pending nodes of the buckets it
                 // visits in their place)
                 let api: Vec<Enr> = b.s.discv5.nodes_by_distance(ds.clone());
-                b.inject(HandlerOut::Request(
-                    addr.clone(),
-                    Box::new(Request { id: RequestId(id.clone()), body: RequestBody::FindNode { distances: ds.clone() } }),
-                ))
-                .await;
+                // the request as the handler obtains it: decoded from the bytes on the wire. The decoder refuses
+                // lists with a distance above 256 (those requests are handed to the service behind the decoder,
+                // as before); every other list - the empty one included - is a request this node answers
+                let on_wire = Request { id: RequestId(id.clone()), body: RequestBody::FindNode { distances: ds.clone() } };
+                let delivered = wire_request(&on_wire);
+                if ds.iter().all(|d| *d <= 256) {
+                    match &delivered {
+                        None => failures.push((
+                            "C14".to_string(),
+                            format!("a FINDNODE request for {} distances, none above 256, is refused by the message decoder: it never reaches the service and is never answered", match ds.len() { 0 => "no", 1 => "one", _ => "several" }),
+                        )),
+                        Some(r) if *r != on_wire => failures.push(("C14".to_string(), "the FINDNODE request decoded from the wire is not the request that was sent".to_string())),
+                        _ => {}
+                    }
+                    hist.add("c14:request_through_the_message_decoder");
+                } else {
+                    hist.add(if delivered.is_none() { "c14:out_of_range_list_refused_by_the_decoder_handed_over_behind_it" } else { "c14:out_of_range_list_decoded" });
+                }
+                b.inject(HandlerOut::Request(addr.clone(), Box::new(on_wire))).await;
                 let msgs = b.drain();
                 let served = collect_served(&msgs, &addr, &local_id, rng);
                 let cur_local = b.s.local_enr.read().clone();
@@ -405,11 +428,11 @@ pub fn run_case(idents: &[Ident], idx: u64, rng: &mut Rng, _thorough: bool, hist
                 let addr = NodeAddress { socket_addr: sa, node_id: idents[rq].node_id() };
                 let rid = gen_req_id(rng);
                 let seq_now = b.s.local_enr.read().seq();
-                b.inject(HandlerOut::Request(
-                    addr.clone(),
-                    Box::new(Request { id: RequestId(rid.clone()), body: RequestBody::Ping { enr_seq: ping_seq } }),
-                ))
-                .await;
+                let on_wire = Request { id: RequestId(rid.clone()), body: RequestBody::Ping { enr_seq: ping_seq } };
+                if wire_request(&on_wire).as_ref() != Some(&on_wire) {
+                    failures.push(("C14".to_string(), "a PING is refused (or altered) by the message decoder: it never reaches the service as sent and is not answered".to_string()));
+                }
+                b.inject(HandlerOut::Request(addr.clone(), Box::new(on_wire))).await;
                 let msgs = b.drain();
                 let pongs: Vec<(Vec<u8>, u64, IpAddr, u16)> = msgs
                     .iter()
